@@ -15,106 +15,106 @@ open UF Bytes
 
 /-! ### Network-rule text -/
 
-theorem c12_total_parseRuleText (t : Bytes) : parseRuleText t ≠ .error .panic :=
-  parseRuleText_noPanic t
+theorem c12_total_parseRuleText (t : Bytes) : E.parseRuleText t ≠ .error .panic :=
+  E.parseRuleText_noPanic t
 
 theorem c12_total_splitWithEscapeCharacter (str : Bytes) (sep esc : UInt8) (preserveAll : Bool) :
-    splitWithEscapeCharacter str sep esc preserveAll ≠ .error .panic :=
-  splitWithEscapeCharacter_noPanic str sep esc preserveAll
+    E.splitWithEscapeCharacter str sep esc preserveAll ≠ .error .panic :=
+  E.splitWithEscapeCharacter_noPanic str sep esc preserveAll
 
-theorem c12_total_findShortcut (p : Bytes) : findShortcut p ≠ .error .panic :=
-  findShortcut_noPanic p
+theorem c12_total_findShortcut (p : Bytes) : E.findShortcut p ≠ .error .panic :=
+  E.findShortcut_noPanic p
 
 /-- `loadDomains`, including the index expression `"xn--"[xn]` inside `IsDomainName`. -/
-theorem c12_total_loadDomains (d : Bytes) (sep : UInt8) : loadDomains d sep ≠ .error .panic :=
-  loadDomains_noPanic d sep
+theorem c12_total_loadDomains (d : Bytes) (sep : UInt8) : E.loadDomains d sep ≠ .error .panic :=
+  E.loadDomains_noPanic d sep
 
-theorem c12_total_isDomainName (n : Bytes) : isDomainNameC n ≠ .error .panic :=
-  isDomainNameC_noPanic n
+theorem c12_total_isDomainName (n : Bytes) : E.isDomainNameC n ≠ .error .panic :=
+  E.isDomainNameC_noPanic n
 
-theorem c12_total_loadDNSTypes (t : Bytes) : loadDNSTypes t ≠ .error .panic :=
-  loadDNSTypes_noPanic t
+theorem c12_total_loadDNSTypes (t : Bytes) : E.loadDNSTypes t ≠ .error .panic :=
+  E.loadDNSTypes_noPanic t
 
-theorem c12_total_loadCTags (v : Bytes) : loadCTags v ≠ .error .panic :=
-  loadCTags_noPanic v
+theorem c12_total_loadCTags (v : Bytes) : E.loadCTags v ≠ .error .panic :=
+  E.loadCTags_noPanic v
 
-theorem c12_total_loadClients (ext : Ext) (v : Bytes) : loadClients ext v ≠ .error .panic :=
-  loadClients_noPanic ext v
+theorem c12_total_loadClients (ext : Ext) (v : Bytes) : E.loadClients ext v ≠ .error .panic :=
+  E.loadClients_noPanic ext v
 
-theorem c12_total_loadOptions (px : ParseExt) (r : NetRule) (options : Bytes) :
-    loadOptions px r options ≠ .error .panic :=
-  loadOptions_noPanic px r options
+theorem c12_total_loadOptions (px : E.ParseExt) (r : NetRule) (options : Bytes) :
+    E.loadOptions px r options ≠ .error .panic :=
+  E.loadOptions_noPanic px r options
 
 /-- `NewNetworkRule` never panics, for every text, list id and oracle. -/
-theorem c12_total_parseNetRule (px : ParseExt) (t : Bytes) (id : Int) :
-    parseNetRule px t id ≠ .error .panic :=
-  parseNetRule_noPanic px t id
+theorem c12_total_parseNetRule (px : E.ParseExt) (t : Bytes) (id : Int) :
+    E.parseNetRule px t id ≠ .error .panic :=
+  E.parseNetRule_noPanic px t id
 
 /-! ### Cosmetic markers, comments, `NewRule` -/
 
 theorem c12_total_startsAtIndexWith (str : Bytes) (start : Nat) (sub : Bytes) :
-    startsAtIndexWith str start sub ≠ .error .panic :=
-  startsAtIndexWith_noPanic str start sub
+    E.startsAtIndexWith str start sub ≠ .error .panic :=
+  E.startsAtIndexWith_noPanic str start sub
 
-theorem c12_total_findCosmeticRuleMarker (t : Bytes) : findCosmeticRuleMarker t ≠ .error .panic :=
-  findCosmeticRuleMarker_noPanic t
+theorem c12_total_findCosmeticRuleMarker (t : Bytes) : E.findCosmeticRuleMarker t ≠ .error .panic :=
+  E.findCosmeticRuleMarker_noPanic t
 
-theorem c12_total_isComment (l : Bytes) : isComment l ≠ .error .panic :=
-  isComment_noPanic l
+theorem c12_total_isComment (l : Bytes) : E.isComment l ≠ .error .panic :=
+  E.isComment_noPanic l
 
 theorem c12_total_newCosmeticRule (trim : Bytes → Bytes) (t : Bytes) (id : Int) :
-    newCosmeticRule trim t id ≠ .error .panic :=
-  newCosmeticRule_noPanic trim t id
+    E.newCosmeticRule trim t id ≠ .error .panic :=
+  E.newCosmeticRule_noPanic trim t id
 
 /-- `NewRule` never panics. -/
-theorem c12_total_newRule (rx : RuleExt) (line : Bytes) (id : Int) :
-    newRule rx line id ≠ .error .panic :=
-  newRule_noPanic rx line id
+theorem c12_total_newRule (rx : E.RuleExt) (line : Bytes) (id : Int) :
+    E.newRule rx line id ≠ .error .panic :=
+  E.newRule_noPanic rx line id
 
 /-! ### Matching: the two helpers of `Match` that slice / index -/
 
 /-- `isDomainOrSubdomainOfAny` with `d[0:len(d)-1]` checked never fails and computes the function
     used by the model of `Match`. -/
 theorem c12_total_isDomainOrSubdomainOfAny (ext : Ext) (domain : Bytes) (ds : List Bytes) :
-    isDomainOrSubdomainOfAnyC ext domain ds = .ok (isDomainOrSubdomainOfAny ext domain ds) :=
-  isDomainOrSubdomainOfAnyC_eq ext domain ds
+    E.isDomainOrSubdomainOfAnyC ext domain ds = .ok (isDomainOrSubdomainOfAny ext domain ds) :=
+  E.isDomainOrSubdomainOfAnyC_eq ext domain ds
 
 /-- `shouldMatchHostname` with `pattern[0]`, `pattern[len-1]`, `pattern[i]` checked never fails and
     computes the function used by the model of `Match`. -/
 theorem c12_total_shouldMatchHostname (r : NetRule) (q : Request) :
-    shouldMatchHostnameC r q = .ok (shouldMatchHostname r q) :=
-  shouldMatchHostnameC_eq r q
+    E.shouldMatchHostnameC r q = .ok (shouldMatchHostname r q) :=
+  E.shouldMatchHostnameC_eq r q
 
 /-! ### What a line yields -/
 
 /-- A line that yields a rule yields one whose text is the trimmed line and whose list id is the
     one given (`NewHostRule`, group H's, is assumed to keep text and id). -/
-theorem c12_text (rx : RuleExt) (line : Bytes) (id : Int) (r : Rule)
+theorem c12_text (rx : E.RuleExt) (line : Bytes) (id : Int) (r : Rule)
     (hhost : ∀ t i h, rx.newHostRule t i = some h → h.text = t ∧ h.listID = i)
-    (h : newRule rx line id = .ok (some r)) : r.text = rx.trim line ∧ r.listID = id :=
-  newRule_text hhost h
+    (h : E.newRule rx line id = .ok (some r)) : r.text = rx.trim line ∧ r.listID = id :=
+  E.newRule_text hhost h
 
 /-- The three outcomes of the property: nothing, a rule (text = trimmed line, given id), or an error
     — never a crash. -/
-theorem c12_outcomes (rx : RuleExt) (line : Bytes) (id : Int)
+theorem c12_outcomes (rx : E.RuleExt) (line : Bytes) (id : Int)
     (hhost : ∀ t i h, rx.newHostRule t i = some h → h.text = t ∧ h.listID = i) :
-    newRule rx line id = .ok none ∨
-    (∃ r, newRule rx line id = .ok (some r) ∧ r.text = rx.trim line ∧ r.listID = id) ∨
-    newRule rx line id = .error .err := by
-  cases h : newRule rx line id with
+    E.newRule rx line id = .ok none ∨
+    (∃ r, E.newRule rx line id = .ok (some r) ∧ r.text = rx.trim line ∧ r.listID = id) ∨
+    E.newRule rx line id = .error .err := by
+  cases h : E.newRule rx line id with
   | ok o =>
     cases o with
     | none => exact Or.inl rfl
-    | some r => exact Or.inr (Or.inl ⟨r, rfl, newRule_text hhost h⟩)
+    | some r => exact Or.inr (Or.inl ⟨r, rfl, E.newRule_text hhost h⟩)
   | error e =>
     cases e with
-    | panic => exact absurd h (newRule_noPanic rx line id)
+    | panic => exact absurd h (E.newRule_noPanic rx line id)
     | err => exact Or.inr (Or.inr rfl)
 
 /-- A network rule produced by `NewNetworkRule` keeps its text and list id. -/
-theorem c12_text_net (px : ParseExt) (t : Bytes) (id : Int) (r : NetRule)
-    (h : parseNetRule px t id = .ok r) : r.text = t ∧ r.listID = id :=
-  parseNetRule_text h
+theorem c12_text_net (px : E.ParseExt) (t : Bytes) (id : Int) (r : NetRule)
+    (h : E.parseNetRule px t id = .ok r) : r.text = t ∧ r.listID = id :=
+  E.parseNetRule_text h
 
 /-! ### Inert lines.  `RuleScanner.Scan` keeps exactly the lines for which `NewRule` returns a rule
     and no error; engines are built from the scanned rules only.  Hence every result of every
@@ -123,55 +123,55 @@ theorem c12_text_net (px : ParseExt) (t : Bytes) (id : Int) (r : NetRule)
 
 /-- Deleting (equivalently: inserting) any set of lines that yield no rule — blank, comment or
     rejected — does not change the sequence of accepted rules. -/
-theorem c12_inert_scan (rx : RuleExt) (id : Int) (lines : List Bytes) (keep : Bytes → Bool)
-    (h : ∀ l ∈ lines, keep l = false → acceptedOf rx id l = none) :
-    scanAccepted rx id (lines.filter keep) = scanAccepted rx id lines :=
-  scanAccepted_filter rx id lines keep h
+theorem c12_inert_scan (rx : E.RuleExt) (id : Int) (lines : List Bytes) (keep : Bytes → Bool)
+    (h : ∀ l ∈ lines, keep l = false → E.acceptedOf rx id l = none) :
+    E.scanAccepted rx id (lines.filter keep) = E.scanAccepted rx id lines :=
+  E.scanAccepted_filter rx id lines keep h
 
 /-- Inserting one inert line at any position. -/
-theorem c12_inert_insert (rx : RuleExt) (id : Int) (a b : List Bytes) (n : Bytes)
-    (h : acceptedOf rx id n = none) :
-    scanAccepted rx id (a ++ n :: b) = scanAccepted rx id (a ++ b) :=
-  scanAccepted_insert rx id a b n h
+theorem c12_inert_insert (rx : E.RuleExt) (id : Int) (a b : List Bytes) (n : Bytes)
+    (h : E.acceptedOf rx id n = none) :
+    E.scanAccepted rx id (a ++ n :: b) = E.scanAccepted rx id (a ++ b) :=
+  E.scanAccepted_insert rx id a b n h
 
 /-- Switching to CRLF line endings (every line gets a trailing CR) changes nothing, given that
     `TrimSpace` (group D) removes a trailing CR. -/
-theorem c12_inert_crlf (rx : RuleExt) (id : Int) (lines : List Bytes)
+theorem c12_inert_crlf (rx : E.RuleExt) (id : Int) (lines : List Bytes)
     (hcr : ∀ l, rx.trim (l ++ [13]) = rx.trim l) :
-    scanAccepted rx id (lines.map (· ++ [13])) = scanAccepted rx id lines :=
-  scanAccepted_crlf rx id lines hcr
+    E.scanAccepted rx id (lines.map (· ++ [13])) = E.scanAccepted rx id lines :=
+  E.scanAccepted_crlf rx id lines hcr
 
 /-- Any result computed from the accepted rules (engine construction + query, abstractly a function
     `results`) is unchanged by noise insertion and by CRLF endings. -/
-theorem c12_inert {α} (results : List Rule → α) (rx : RuleExt) (id : Int) (lines : List Bytes)
-    (keep : Bytes → Bool) (h : ∀ l ∈ lines, keep l = false → acceptedOf rx id l = none)
+theorem c12_inert {α} (results : List Rule → α) (rx : E.RuleExt) (id : Int) (lines : List Bytes)
+    (keep : Bytes → Bool) (h : ∀ l ∈ lines, keep l = false → E.acceptedOf rx id l = none)
     (hcr : ∀ l, rx.trim (l ++ [13]) = rx.trim l) :
-    results (scanAccepted rx id (lines.filter keep)) = results (scanAccepted rx id lines) ∧
-    results (scanAccepted rx id (lines.map (· ++ [13]))) = results (scanAccepted rx id lines) := by
-  rw [scanAccepted_filter rx id lines keep h, scanAccepted_crlf rx id lines hcr]
+    results (E.scanAccepted rx id (lines.filter keep)) = results (E.scanAccepted rx id lines) ∧
+    results (E.scanAccepted rx id (lines.map (· ++ [13]))) = results (E.scanAccepted rx id lines) := by
+  rw [E.scanAccepted_filter rx id lines keep h, E.scanAccepted_crlf rx id lines hcr]
   exact ⟨rfl, rfl⟩
 
 /-- Blank lines and comments yield nothing. -/
-theorem c12_blank (rx : RuleExt) (line : Bytes) (id : Int) (h : rx.trim line = []) :
-    newRule rx line id = .ok none := by
-  simp [newRule, h]
+theorem c12_blank (rx : E.RuleExt) (line : Bytes) (id : Int) (h : rx.trim line = []) :
+    E.newRule rx line id = .ok none := by
+  simp [E.newRule, h]
   rfl
 
 /-! ### Non-vacuity -/
 
-private def exRx : RuleExt :=
+private def exRx : E.RuleExt :=
   { px := { ext := { psl := fun _ => ([], false), parseAddr := fun _ => none,
                      parsePrefix := fun _ => none, pat := fun _ _ _ => true },
             loadDNSRewrite := fun _ => none, regexpShortcut := fun _ => [] },
     trim := id, newHostRule := fun _ _ => none }
 
 /-- A comment, a rejected line and an accepted line. -/
-example : acceptedOf exRx 1 (lit "! comment") = none := by decide
-example : (match newRule exRx (lit "||a.com^$unknown") 1 with | .error .err => true | _ => false) = true := by decide
-example : (acceptedOf exRx 7 (lit "||a.com^$ctag=b|a")).map (fun r => (r.text, r.listID)) =
+example : E.acceptedOf exRx 1 (lit "! comment") = none := by decide
+example : (match E.newRule exRx (lit "||a.com^$unknown") 1 with | .error .err => true | _ => false) = true := by decide
+example : (E.acceptedOf exRx 7 (lit "||a.com^$ctag=b|a")).map (fun r => (r.text, r.listID)) =
     some (lit "||a.com^$ctag=b|a", 7) := by decide
 /-- The D2 shape (a one-byte pattern with a `$domain`) parses without a crash. -/
-example : (parseNetRule exRx.px (lit "a$domain=a.com") 1).toOption.map (·.pattern) = some (lit "a") := by
+example : (E.parseNetRule exRx.px (lit "a$domain=a.com") 1).toOption.map (·.pattern) = some (lit "a") := by
   decide
 
 end UF.C12
